@@ -1,13 +1,15 @@
 /*
  * C18 harness: util/getopt.c driven through the GETOPT_SWITCH / GETOPT_OPT / GETOPT_OPTARG /
  * GETOPT_MISSING_ARG / GETOPT_DEFAULT macros exactly as user code would (one function per
- * compile-time option table, the documented while/switch loop, optreset = 1 between parses).
+ * compile-time option table, nine of them: with / without a missing-argument handler, default only,
+ * 1 to 16 lines, the documented while/switch loop, optreset = 1 between parses).
  *
  * op:  parse <table> <k> [<argv0> <arg>...]     hex words, "-" = empty word; no words: argc == 0
  *      k > 0: leave the loop after k reports (an abandoned parse; the next parse must still be
  *      the same as a fresh one after optreset = 1).
  * out: <report>... end=<optind>  |  <state after each report>;<final state>
- *      report = opt:<ch> | arg:<ch>:<optarg> | mis:<ch> | def:<ch>     (the label reached)
+ *      report = opt:<ch> | arg:<ch>:<optarg> | mis:<ch> | def:<ch>     (the label reached; opt@<label>:<ch>
+ *               / arg@<label>:<ch>:<optarg> if an option label was reached for another option)
  *      state  = optind,packedopts-argv[optind] or ~,opt_found (D/M/option),optarg or ~
  *
  * Every word lives in a malloc block of exactly strlen+1 bytes and argv in a block of exactly
@@ -78,12 +80,23 @@ put_hex(const char * s)
 	hc_puthex((const uint8_t *)s, strlen(s));
 }
 
-/* Called at each label. */
+/*
+ * Called at each label.  `label` is the option string of the GETOPT_OPT / GETOPT_OPTARG label the
+ * switch reached (NULL for the missing-argument and default labels).  The documented contract is
+ * that such a label is reached exactly for its own option; if getopt_lookup() sends another option
+ * there (e.g. through a line offset left over from another switch) the report is printed as
+ * kind@label:ch, which the Spec never prints, so the wrong dispatch is a property-level difference.
+ */
 static void
-report(const char * kind, const char * ch, int witharg, char * const argv[], int argc)
+report(const char * kind, const char * label, const char * ch, int witharg, char * const argv[],
+    int argc)
 {
 
 	fputs(kind, stdout);
+	if ((label != NULL) && (strcmp(label, ch) != 0)) {
+		putchar('@');
+		put_hex(label);
+	}
 	putchar(':');
 	put_hex(ch);
 	if (witharg) {
@@ -99,10 +112,22 @@ report(const char * kind, const char * ch, int witharg, char * const argv[], int
 	l2_state(argv, argc, 1);
 }
 
-#define R_OPT()		report("opt", ch, 0, argv, argc)
-#define R_ARG()		report("arg", ch, 1, argv, argc)
-#define R_MIS()		report("mis", ch, 0, argv, argc)
-#define R_DEF()		report("def", ch, 0, argv, argc)
+#define R_OPT(os)	report("opt", os, ch, 0, argv, argc)
+#define R_ARG(os)	report("arg", os, ch, 1, argv, argc)
+#define R_MIS()		report("mis", NULL, ch, 0, argv, argc)
+#define R_DEF()		report("def", NULL, ch, 0, argv, argc)
+#define LOOP_TAIL()	do {							\
+		if ((k > 0) && (nrep == k))					\
+			return (1);						\
+		if (nrep >= MAXREP)						\
+			return (2);						\
+	} while (0)
+
+/*
+ * The switches.  ONE SOURCE LINE PER LABEL, an empty line where the Lean table has `.blank`: the line
+ * offsets from the GETOPT_SWITCH line (which is what getopt.c stores and getopt_lookup() returns) are
+ * then exactly the list positions in Model/GetoptStep.lean `tables`.
+ */
 
 /* t0: short and long options with and without arguments, with GETOPT_MISSING_ARG. */
 static int
@@ -112,28 +137,19 @@ parse_t0(int argc, char * argv[], int k)
 
 	while ((ch = GETOPT(argc, argv)) != NULL) {
 		GETOPT_SWITCH(ch) {
-		GETOPT_OPT("-a"):
-			R_OPT(); break;
-		GETOPT_OPTARG("-b"):
-			R_ARG(); break;
-		GETOPT_OPT("--foo"):
-			R_OPT(); break;
-		GETOPT_OPTARG("--bar"):
-			R_ARG(); break;
-		GETOPT_MISSING_ARG:
-			R_MIS(); break;
-		GETOPT_DEFAULT:
-			R_DEF(); break;
+		GETOPT_OPT("-a"): R_OPT("-a"); break;
+		GETOPT_OPTARG("-b"): R_ARG("-b"); break;
+		GETOPT_OPT("--foo"): R_OPT("--foo"); break;
+		GETOPT_OPTARG("--bar"): R_ARG("--bar"); break;
+		GETOPT_MISSING_ARG: R_MIS(); break;
+		GETOPT_DEFAULT: R_DEF(); break;
 		}
-		if ((k > 0) && (nrep == k))
-			return (1);
-		if (nrep >= MAXREP)
-			return (2);
+		LOOP_TAIL();
 	}
 	return (0);
 }
 
-/* t1: the same options in another order, no GETOPT_MISSING_ARG. */
+/* t1: the same options in another order, a blank line, no GETOPT_MISSING_ARG. */
 static int
 parse_t1(int argc, char * argv[], int k)
 {
@@ -141,31 +157,21 @@ parse_t1(int argc, char * argv[], int k)
 
 	while ((ch = GETOPT(argc, argv)) != NULL) {
 		GETOPT_SWITCH(ch) {
-		GETOPT_OPTARG("--bar"):
-			R_ARG(); break;
-		GETOPT_OPT("-a"):
-			R_OPT(); break;
+		GETOPT_OPTARG("--bar"): R_ARG("--bar"); break;
+		GETOPT_OPT("-a"): R_OPT("-a"); break;
 
-		GETOPT_OPT("--foo"):
-			R_OPT(); break;
-		GETOPT_OPTARG("-b"):
-			R_ARG(); break;
-		GETOPT_DEFAULT:
-			R_DEF(); break;
+		GETOPT_OPT("--foo"): R_OPT("--foo"); break;
+		GETOPT_OPTARG("-b"): R_ARG("-b"); break;
+		GETOPT_DEFAULT: R_DEF(); break;
 		}
-		if ((k > 0) && (nrep == k))
-			return (1);
-		if (nrep >= MAXREP)
-			return (2);
+		LOOP_TAIL();
 	}
 	return (0);
 }
 
-/*
- * t2: overlapping prefixes (--f / --fo / --foo / --foobar), single letters which are prefixes
- * of packed groups (-f -o -b: "-foobar" is -f, then -o with argument "obar"), and the
- * missing-argument handler in the middle of the switch.
- */
+/* t2: overlapping prefixes (--f / --fo / --foo / --foobar), single letters which are prefixes of
+ * packed groups (-f -o -b: "-foobar" is -f, then -o with argument "obar"), and the missing-argument
+ * handler in the middle of the switch. */
 static int
 parse_t2(int argc, char * argv[], int k)
 {
@@ -173,29 +179,17 @@ parse_t2(int argc, char * argv[], int k)
 
 	while ((ch = GETOPT(argc, argv)) != NULL) {
 		GETOPT_SWITCH(ch) {
-		GETOPT_OPT("--foo"):
-			R_OPT(); break;
-		GETOPT_OPTARG("--foobar"):
-			R_ARG(); break;
-		GETOPT_OPT("-f"):
-			R_OPT(); break;
-		GETOPT_MISSING_ARG:
-			R_MIS(); break;
-		GETOPT_OPTARG("-o"):
-			R_ARG(); break;
-		GETOPT_OPTARG("--f"):
-			R_ARG(); break;
-		GETOPT_OPT("-b"):
-			R_OPT(); break;
-		GETOPT_OPT("--fo"):
-			R_OPT(); break;
-		GETOPT_DEFAULT:
-			R_DEF(); break;
+		GETOPT_OPT("--foo"): R_OPT("--foo"); break;
+		GETOPT_OPTARG("--foobar"): R_ARG("--foobar"); break;
+		GETOPT_OPT("-f"): R_OPT("-f"); break;
+		GETOPT_MISSING_ARG: R_MIS(); break;
+		GETOPT_OPTARG("-o"): R_ARG("-o"); break;
+		GETOPT_OPTARG("--f"): R_ARG("--f"); break;
+		GETOPT_OPT("-b"): R_OPT("-b"); break;
+		GETOPT_OPT("--fo"): R_OPT("--fo"); break;
+		GETOPT_DEFAULT: R_DEF(); break;
 		}
-		if ((k > 0) && (nrep == k))
-			return (1);
-		if (nrep >= MAXREP)
-			return (2);
+		LOOP_TAIL();
 	}
 	return (0);
 }
@@ -208,24 +202,124 @@ parse_t3(int argc, char * argv[], int k)
 
 	while ((ch = GETOPT(argc, argv)) != NULL) {
 		GETOPT_SWITCH(ch) {
-		GETOPT_OPT("-="):
-			R_OPT(); break;
-		GETOPT_OPTARG("-x"):
-			R_ARG(); break;
-		GETOPT_OPTARG("--x"):
-			R_ARG(); break;
+		GETOPT_OPT("-="): R_OPT("-="); break;
+		GETOPT_OPTARG("-x"): R_ARG("-x"); break;
+		GETOPT_OPTARG("--x"): R_ARG("--x"); break;
 
-		GETOPT_OPT("-y"):
-			R_OPT(); break;
-		GETOPT_OPT("--y"):
-			R_OPT(); break;
-		GETOPT_DEFAULT:
-			R_DEF(); break;
+		GETOPT_OPT("-y"): R_OPT("-y"); break;
+		GETOPT_OPT("--y"): R_OPT("--y"); break;
+		GETOPT_DEFAULT: R_DEF(); break;
 		}
-		if ((k > 0) && (nrep == k))
-			return (1);
-		if (nrep >= MAXREP)
-			return (2);
+		LOOP_TAIL();
+	}
+	return (0);
+}
+
+/* t4: GETOPT_DEFAULT only: the smallest possible switch (every option is unknown). */
+static int
+parse_t4(int argc, char * argv[], int k)
+{
+	const char * ch;
+
+	while ((ch = GETOPT(argc, argv)) != NULL) {
+		GETOPT_SWITCH(ch) {
+		GETOPT_DEFAULT: R_DEF(); break;
+		}
+		LOOP_TAIL();
+	}
+	return (0);
+}
+
+/* t5: small, the missing-argument handler FIRST (line offset 1), one option with argument. */
+static int
+parse_t5(int argc, char * argv[], int k)
+{
+	const char * ch;
+
+	while ((ch = GETOPT(argc, argv)) != NULL) {
+		GETOPT_SWITCH(ch) {
+		GETOPT_MISSING_ARG: R_MIS(); break;
+		GETOPT_OPTARG("-b"): R_ARG("-b"); break;
+		GETOPT_DEFAULT: R_DEF(); break;
+		}
+		LOOP_TAIL();
+	}
+	return (0);
+}
+
+/* t6: small, no handler; an OPTARG label at line offset 1 (where t5 has its handler). */
+static int
+parse_t6(int argc, char * argv[], int k)
+{
+	const char * ch;
+
+	while ((ch = GETOPT(argc, argv)) != NULL) {
+		GETOPT_SWITCH(ch) {
+		GETOPT_OPTARG("--bar"): R_ARG("--bar"); break;
+		GETOPT_OPTARG("-b"): R_ARG("-b"); break;
+		GETOPT_DEFAULT: R_DEF(); break;
+		}
+		LOOP_TAIL();
+	}
+	return (0);
+}
+
+/* t7: large and sparse, options the other tables do not have (-z --zed: -q:) in its high slots, the
+ * handler on the last line (offset 13, beyond every smaller table). */
+static int
+parse_t7(int argc, char * argv[], int k)
+{
+	const char * ch;
+
+	while ((ch = GETOPT(argc, argv)) != NULL) {
+		GETOPT_SWITCH(ch) {
+		GETOPT_OPT("-a"): R_OPT("-a"); break;
+
+		GETOPT_OPT("--foo"): R_OPT("--foo"); break;
+
+
+		GETOPT_OPTARG("-b"): R_ARG("-b"); break;
+		GETOPT_OPTARG("--bar"): R_ARG("--bar"); break;
+
+		GETOPT_OPT("-z"): R_OPT("-z"); break;
+		GETOPT_OPTARG("--zed"): R_ARG("--zed"); break;
+		GETOPT_OPTARG("-q"): R_ARG("-q"); break;
+
+		GETOPT_MISSING_ARG: R_MIS(); break;
+		GETOPT_DEFAULT: R_DEF(); break;
+		}
+		LOOP_TAIL();
+	}
+	return (0);
+}
+
+/* t8: the largest, no handler; labels at the line offsets where the other tables have their handler
+ * (1, 4, 5, 13) or their default value maxopts + 1 (2, 4, 7, 8, 10, 15). */
+static int
+parse_t8(int argc, char * argv[], int k)
+{
+	const char * ch;
+
+	while ((ch = GETOPT(argc, argv)) != NULL) {
+		GETOPT_SWITCH(ch) {
+		GETOPT_OPT("-a"): R_OPT("-a"); break;
+		GETOPT_OPT("--foo"): R_OPT("--foo"); break;
+
+		GETOPT_OPTARG("-q"): R_ARG("-q"); break;
+		GETOPT_OPTARG("-b"): R_ARG("-b"); break;
+
+		GETOPT_OPTARG("--bar"): R_ARG("--bar"); break;
+		GETOPT_OPT("-y"): R_OPT("-y"); break;
+
+		GETOPT_OPTARG("--zed"): R_ARG("--zed"); break;
+
+
+		GETOPT_OPT("-z"): R_OPT("-z"); break;
+
+		GETOPT_OPT("--yy"): R_OPT("--yy"); break;
+		GETOPT_DEFAULT: R_DEF(); break;
+		}
+		LOOP_TAIL();
 	}
 	return (0);
 }
@@ -301,6 +395,11 @@ main(void)
 		case 1: stopped = parse_t1(ac, av, k); break;
 		case 2: stopped = parse_t2(ac, av, k); break;
 		case 3: stopped = parse_t3(ac, av, k); break;
+		case 4: stopped = parse_t4(ac, av, k); break;
+		case 5: stopped = parse_t5(ac, av, k); break;
+		case 6: stopped = parse_t6(ac, av, k); break;
+		case 7: stopped = parse_t7(ac, av, k); break;
+		case 8: stopped = parse_t8(ac, av, k); break;
 		default: stopped = -1;
 		}
 		if (stopped < 0) {
